@@ -229,7 +229,7 @@ func progWires(p *Prog, d *DSystem) (in []int, out []int) {
 
 // singleOpProgs: every op kind x every constant/variable pattern of its operands (constants drawn
 // from a small set), inputs all distinct variables, every result exposed (up to 3).
-func singleOpProgs(r *RNG, q *big.Int) []*Prog {
+func singleOpProgs(r *RNG, q *big.Int, thorough bool) []*Prog {
 	arity := map[string]int{"Add": 2, "Sub": 2, "Neg": 1, "Mul": 2, "MulAcc": 3, "Div": 2, "DivUnchecked": 2, "Inverse": 1,
 		"ToBinary": 1, "FromBinary": 3, "Xor": 2, "Or": 2, "And": 2, "Select": 3, "Lookup2": 6, "IsZero": 1, "Cmp": 2,
 		"AssertIsEqual": 2, "AssertIsDifferent": 2, "AssertIsBoolean": 1, "AssertIsLessOrEqual": 2, "Hint2": 2}
@@ -260,59 +260,97 @@ func singleOpProgs(r *RNG, q *big.Int) []*Prog {
 			if mask == (1<<uint(n))-1 && n > 0 && (strings.HasPrefix(k, "Assert") || k == "ToBinary") {
 				continue // all-constant assertions are decided (or panic) at compile time
 			}
-			op := Op{Kind: k}
-			nv := 0
-			bad := false
+			// constants: every combination for ops of arity <= 2, one random choice otherwise
+			isBoolPos := func(i int) bool {
+				return (k == "Xor" || k == "Or" || k == "And" || k == "FromBinary" || k == "AssertIsBoolean") ||
+					(k == "Select" && i == 0) || (k == "Lookup2" && i < 2)
+			}
+			var choices [][]*big.Int // one vector of constants (per masked position, in order) per program
+			var masked []int
 			for i := 0; i < n; i++ {
 				if mask&(1<<uint(i)) != 0 {
+					masked = append(masked, i)
+				}
+			}
+			sysKinds := map[string]bool{"Div": true, "DivUnchecked": true, "Cmp": true, "AssertIsLessOrEqual": true}
+			if n <= 2 && ((len(masked) == 1 && sysKinds[k]) || thorough) {
+				choices = [][]*big.Int{{}}
+				for _, i := range masked {
+					pool := consts
+					if isBoolPos(i) {
+						pool = []int64{0, 1}
+					}
+					var next [][]*big.Int
+					for _, v := range choices {
+						for _, c := range pool {
+							next = append(next, append(append([]*big.Int{}, v...), big.NewInt(c)))
+						}
+					}
+					choices = next
+				}
+			} else {
+				var v []*big.Int
+				for _, i := range masked {
 					c := big.NewInt(consts[r.Intn(len(consts))])
-					boolPos := (k == "Xor" || k == "Or" || k == "And" || k == "FromBinary" || k == "AssertIsBoolean") ||
-						(k == "Select" && i == 0) || (k == "Lookup2" && i < 2)
-					if boolPos {
+					if isBoolPos(i) {
 						c = big.NewInt(int64(r.Intn(2)))
 					}
-					if (k == "Div" || k == "DivUnchecked") && i == 1 && c.Sign() == 0 {
-						c = big.NewInt(3)
-					}
-					if k == "Inverse" && c.Sign() == 0 {
-						c = big.NewInt(7)
-					}
-					op.Args = append(op.Args, Arg{Const: true, C: c})
-				} else {
-					op.Args = append(op.Args, Arg{V: nv})
-					nv++
+					v = append(v, c)
 				}
+				choices = [][]*big.Int{v}
 			}
-			if bad {
-				continue
-			}
-			widths := []int{0}
-			if k == "ToBinary" {
-				widths = []int{1, 3, 5, 6}
-			}
-			for _, wdt := range widths {
-				o2 := op
-				o2.N = wdt
-				if k == "ToBinary" && o2.Args[0].Const && o2.Args[0].C.BitLen() > wdt {
+			for _, cv := range choices {
+				op := Op{Kind: k}
+				nv := 0
+				bad := false
+				ci := 0
+				for i := 0; i < n; i++ {
+					if mask&(1<<uint(i)) != 0 {
+						c := cv[ci]
+						ci++
+						if (k == "Div" || k == "DivUnchecked") && i == 1 && c.Sign() == 0 {
+							bad = true // division by the constant 0 is refused at compile time (documented)
+						}
+						if k == "Inverse" && c.Sign() == 0 {
+							bad = true
+						}
+						op.Args = append(op.Args, Arg{Const: true, C: c})
+					} else {
+						op.Args = append(op.Args, Arg{V: nv})
+						nv++
+					}
+				}
+				if bad {
 					continue
 				}
-				p := &Prog{NbPub: 0, NbSec: nv, Ops: []Op{o2}}
-				if nv == 0 {
-					p.NbSec = 1 // at least one input
+				widths := []int{0}
+				if k == "ToBinary" {
+					widths = []int{1, 3, 5, 6, 7} // 7: wider than the field (6 bits)
 				}
-				if nv >= 2 {
-					p.NbPub = 1
-					p.NbSec = nv - 1
+				for _, wdt := range widths {
+					o2 := op
+					o2.N = wdt
+					if k == "ToBinary" && o2.Args[0].Const && o2.Args[0].C.BitLen() > wdt {
+						continue
+					}
+					p := &Prog{NbPub: 0, NbSec: nv, Ops: []Op{o2}}
+					if nv == 0 {
+						p.NbSec = 1 // at least one input
+					}
+					if nv >= 2 {
+						p.NbPub = 1
+						p.NbSec = nv - 1
+					}
+					nres := o2.nres(q.BitLen())
+					first := p.NbPub + p.NbSec
+					for i := 0; i < nres && i < 3; i++ {
+						p.Outs = append(p.Outs, first+i)
+					}
+					if nres > 3 { // expose the top bits too
+						p.Outs[2] = first + nres - 1
+					}
+					progs = append(progs, p)
 				}
-				nres := o2.nres(q.BitLen())
-				first := p.NbPub + p.NbSec
-				for i := 0; i < nres && i < 3; i++ {
-					p.Outs = append(p.Outs, first+i)
-				}
-				if nres > 3 { // expose the top bits too
-					p.Outs[2] = first + nres - 1
-				}
-				progs = append(progs, p)
 			}
 		}
 	}
@@ -376,7 +414,7 @@ func runC05(args []string) int {
 	rep := NewReport("C05")
 	rep.Rule = "every API op x every constant/variable operand pattern (single-op programs) plus seeded multi-op programs are compiled by the real r1cs and scs builders over F_47; for every input tuple (all 47^k tuples for k<=2 inputs, a boundary-biased sample otherwise) the complete set of satisfying assignments of the *emitted* constraints is enumerated (Go search + verified Coq enumerator) and its projection on the exposed outputs is compared with the documented meaning; non-trivial = tuple on a system with at least one constraint; distinct = distinct (target, program, tuple)"
 	q := tinyMod
-	progs := singleOpProgs(rng, q)
+	progs := singleOpProgs(rng, q, o.Thorough())
 	nrand := 30
 	maxTuples := 300
 	if o.Thorough() {
